@@ -246,8 +246,13 @@ def exclusion_compile_sites(ctx: Ctx) -> list[tuple[str, str, ast.Call, Any, str
     for fn_name in ('translate', 'compile_pattern'):
         fi = repo.func(WP, fn_name)
         ev = SymEval(repo, watch_calls=True, inline_only={'_wcparse:no_negate_flags'}, max_paths=20000)
-        paths = ev.tabulate(fi, {'flags': BV('flags'), 'patterns': Opaque('patterns'), 'limit': Opaque('limit'),
-                                 'exclude': Opaque('exclude')})
+        # the part up to and including the expansion loop (the tail only adds defaults; it is tabulated by the C07/C02 rules)
+        body = fi.node.body
+        cut = next((i for i, st in enumerate(body) if any(isinstance(x, ast.For) for x in ast.walk(st))), None)
+        if cut is None:
+            raise AnalysisError(f'{fn_name}: expansion loop not found')
+        paths = ev.tabulate(sub_function(fi, body[:cut + 1], 'through-loop'),
+                            {'flags': BV('flags'), 'patterns': Opaque('patterns'), 'limit': Opaque('limit'), 'exclude': Opaque('exclude')})
         seen: dict[int, Any] = {}
         for p in paths:
             for (node, name, a, k) in p.calls:
@@ -301,16 +306,8 @@ def rule_exclusion_dotmatch(ctx: Ctx, rule: str) -> None:
                witness="globmatch('link/a.txt', '**/*.txt', G, REALPATH, exclude='x') must stay False: the `**` capture is what finds the symlink")
     ctx.floor(rule, 'inclusion compile sites in _wcparse', len(incl), 2)
     # Glob
-    gi = repo.func('glob', 'Glob.__init__')
-    a = [s for s in walk_no_nested(gi.node) if isinstance(s, ast.Assign) and norm_src(s.targets[0]) == 'self.negate_flags']
-    if len(a) != 1:
-        raise AnalysisError('Glob.__init__: self.negate_flags definition not found')
-    from .common import fold_in
-    v = fold_in(repo, gi, a[0].value, {'flags': BV('gflags')})
-    okg = isinstance(v, BV) and v.must_set(D | NC)
-    ctx.ob(rule, 'glob:Glob.__init__/self.negate_flags', okg, repo.loc('glob', a[0]),
-           'self.flags | DOTMATCH | _NO_GLOBSTAR_CAPTURE', norm_src(a[0].value),
-           witness="glob('*', flags=NEGATE, exclude='*') must also drop dot files found through `.*`")
+    from . import ginit
+    ginit.rule_derived_attrs(ctx, rule, which={'negate_flags'})
     pp = repo.func('glob', 'Glob._parse_patterns')
     q = fq(pp)
     calls = q.calls(lambda s: s == '_wcparse._compile')
@@ -366,42 +363,5 @@ def rule_walker_hidden(ctx: Ctx, rule: str) -> None:
                    'yield only if (no matcher ∧ ¬hidden) or the matcher accepted the name', f'guards {sorted(g)}',
                    witness="glob('**', GLOBSTAR) must not return hidden files")
     # NODOTDIR default
-    gi = repo.func('glob', 'Glob.__init__')
-    ND = repo.const(WP, 'NODOTDIR')
-    SD = repo.const('glob', 'SCANDOTDIR')
-    ev2 = SymEval(repo, inline_only={'glob:_flag_transform', '_wcparse:no_negate_flags'}, max_paths=60000,
-                  call_models={'glob:Glob._parse_patterns': lambda fr, n, a, k: None})
-    cut = next((i for i, st in enumerate(gi.node.body) if isinstance(st, ast.If) and 'NODOTDIR' in norm_src(st.test)), None)
-    if cut is None:
-        raise AnalysisError('Glob.__init__: NODOTDIR default not found')
-    gi = sub_function(gi, gi.node.body[:cut + 1], 'flag-prologue')
-    paths = ev2.tabulate(gi, {'flags': BV('flags'), 'pattern': Opaque('pattern'), 'exclude': Opaque('exclude'),
-                              'root_dir': Opaque('root_dir'), 'dir_fd': Opaque('dir_fd'), 'limit': Opaque('limit')},
-                         Obj(('glob', 'Glob')),
-                         preset={'SUPPORT_DIR_FD': True, 'exclude is not None': False,
-                                 'isinstance(pattern, (str, bytes))': True, 'isinstance(exclude, (str, bytes))': True})
-    bad = None
-    rows = 0
-    for p in paths:
-        if p.raised:
-            continue
-        fl = p.attrs.get('flags')
-        if not isinstance(fl, BV):
-            continue
-        rows += 1
-        sd = p.decisions.get(f'bit:flags:{SD:x}')
-        if sd is None:
-            # the path never looked at SCANDOTDIR: then NODOTDIR must be forced regardless -> only ok if must_set
-            if not fl.must_set(ND):
-                bad = f'path {p.decisions}: SCANDOTDIR not consulted and NODOTDIR not forced'
-                break
-        elif sd is False and not fl.must_set(ND):
-            bad = 'without SCANDOTDIR the walker flags lack NODOTDIR'
-            break
-        elif sd is True and fl.must_set(ND) and p.decisions.get(f'bit:flags:{ND:x}') is not True:
-            bad = 'NODOTDIR forced although SCANDOTDIR was requested'
-            break
-    ctx.count('decision_table_rows', rows)
-    ctx.ob(rule, 'glob:Glob.__init__/NODOTDIR-default', bad is None and rows > 0, repo.loc('glob', gi.node),
-           'self.flags ∋ NODOTDIR unless SCANDOTDIR', f'{rows} paths agree' if bad is None else bad,
-           witness="glob('.*') must not return `.` and `..` unless SCANDOTDIR")
+    from . import ginit
+    ginit.rule_walker_bits(ctx, rule, which={'NODOTDIR-default', 'scandotdir'})
